@@ -1105,7 +1105,7 @@ func checkLen(r *vk.Run, c LenCase) *vk.Fail {
 
 // ---- the test ----------------------------------------------------------------------
 
-const rule = "range/between/until: (E) all a, b, n in [-8,8] plus every combination of the int extremes {MinInt, MinInt+1, -1, 0, 1, MaxInt-1, MaxInt} in every argument position, +-3 neighbourhoods of them and of the limits of the narrower integer types (2^15, 2^16, 2^31, 2^32, 2^53 and their negatives); (R) random ints. The oracle walks the iterator next to the interval computed with math/big for at most 64 steps (so termination is decided by 'exhausted exactly when the model is', never by running 2^63 steps), then re-runs finished cases through template for loops: two-variable and one-variable form, arguments from the context and (when >= 0) spelled as number literals, glued and spaced; the iterator reaching the loop through a let variable and as the result of a function of the template; one parsed template executed three times with the arguments moved by one in between. Pairs: (E) 11 calls x 11 calls x 8 interleavings of their Next calls x {both created first, each created at its first use} and (R) random calls and schedules: each iterator must yield its own interval while the other is alive, exhausted or created after it was exhausted; short pairs also as a loop nested in a loop and as three loops in a row. groupBy: (E) lengths 0..40 x n in [-2,12] x element types {string,int,struct,pointer} x forms {slice, pointer to slice, pointer to array, array} x spare capacity behind the slice {0,1,5} filled with stale elements; (E) lengths 0..8 x n in [-1,10] x further element types {interface{} with nil elements (the type of a template's array literal), pointers some of them nil, bytes, slices (uncomparable), zero-size structs} x the 4 forms, named slice types, typed nil slices; (E) n at 9 large values up to MaxInt (none between 2^17 and 2^58: a wrong implementation that allocates per requested group must fail at once, not exhaust the machine) x lengths 0..8; both shipped implementations, compared group by group; partition laws (concatenation = input, <= n groups, no empty group, all but the last of equal size, last not larger) + error for n<=0 and for 16 kinds of non-sequence (scalars, map, struct, func, chan, an iterator, nil, pointers to them, nil pointers), directly and as a failed render; small cases also through a nested template loop that prints len of every group, with the sequence from the context and spelled as an array literal, and once per turn of an enclosing loop. Sequences of calls: (E) all ordered pairs of (prefix length 0..6, n 1..4) over ONE backing array x implementation pairs x {prefix slices, one re-assigned pointer to slice, the same pointer to array} x {drained at once, all held then drained last-to-first}; (R) 2-5 calls over up to 40 elements. len: lengths 0..9 and around 16, 64, 256, 1000 of string/slice/array/map, pointers to them, named types, spare capacity, []interface{} and map[string]interface{}, invalid UTF-8, nil slice and map; literals of the template; directly, through a template and as until(len(x)). Non-trivial = empty or negative or extreme interval; a pair schedule that uses both iterators; len not divisible by n, len <= n or non-slice form; two or more calls over a non-empty backing array; non-slice or empty len argument. Distinct by call."
+const rule = "range/between/until: (E) all a, b, n in [-8,8] plus every combination of the int extremes {MinInt, MinInt+1, -1, 0, 1, MaxInt-1, MaxInt} in every argument position, +-3 neighbourhoods of them and of the limits of the narrower integer types (2^15, 2^16, 2^31, 2^32, 2^53 and their negatives); every value in [-1100,1160] in windows of 60 steps and the +-3 neighbourhood of +-2^k for every k in 3..62; (R) random ints. The oracle walks the iterator next to the interval computed with math/big for at most 64 steps (so termination is decided by 'exhausted exactly when the model is', never by running 2^63 steps), then re-runs finished cases through template for loops: two-variable and one-variable form, arguments from the context and (when >= 0) spelled as number literals, glued and spaced; the iterator reaching the loop through a let variable and as the result of a function of the template; one parsed template executed three times with the arguments moved by one in between. Pairs: (E) 11 calls x 11 calls x 8 interleavings of their Next calls x {both created first, each created at its first use} and (R) random calls and schedules: each iterator must yield its own interval while the other is alive, exhausted or created after it was exhausted; short pairs also as a loop nested in a loop and as three loops in a row. groupBy: (E) lengths 0..40 x n in [-2,12] x element types {string,int,struct,pointer} x forms {slice, pointer to slice, pointer to array, array} x spare capacity behind the slice {0,1,5} filled with stale elements; (E) lengths 0..8 x n in [-1,10] x further element types {interface{} with nil elements (the type of a template's array literal), pointers some of them nil, bytes, slices (uncomparable), zero-size structs} x the 4 forms, named slice types, typed nil slices; (E) n at 9 large values up to MaxInt (none between 2^17 and 2^58: a wrong implementation that allocates per requested group must fail at once, not exhaust the machine) x lengths 0..8; both shipped implementations, compared group by group; partition laws (concatenation = input, <= n groups, no empty group, all but the last of equal size, last not larger) + error for n<=0 and for 16 kinds of non-sequence (scalars, map, struct, func, chan, an iterator, nil, pointers to them, nil pointers), directly and as a failed render; small cases also through a nested template loop that prints len of every group, with the sequence from the context and spelled as an array literal, and once per turn of an enclosing loop. Sequences of calls: (E) all ordered pairs of (prefix length 0..6, n 1..4) over ONE backing array x implementation pairs x {prefix slices, one re-assigned pointer to slice, the same pointer to array} x {drained at once, all held then drained last-to-first}; (R) 2-5 calls over up to 40 elements. len: lengths 0..9 and around 16, 64, 256, 1000 of string/slice/array/map, pointers to them, named types, spare capacity, []interface{} and map[string]interface{}, invalid UTF-8, nil slice and map; literals of the template; directly, through a template and as until(len(x)). Non-trivial = empty or negative or extreme interval; a pair schedule that uses both iterators; len not divisible by n, len <= n or non-slice form; two or more calls over a non-empty backing array; non-slice or empty len argument. Distinct by call."
 
 func setup(t *testing.T) *vk.Run {
 	r := vk.Start(t, "C19", rule,
@@ -1240,6 +1240,25 @@ func TestProp(t *testing.T) {
 		}
 	}
 	r.Subspace("range/between/until around the limits of the narrower integer types (+-2^15, 2^16, 2^31, 2^32, 2^53, +-3)", n, true)
+
+	// every mid-sized value: windows of 60 steps (the oracle walks 64) that together cover [-1100, 1160], and the
+	// +-3 neighbourhood of every power of two (a value cache, a table or a narrower type is wrong from some such
+	// value on, and right at both ends of the int range)
+	n = 0
+	for s := -1100; s <= 1100; s += 60 {
+		r.Check(checkIter(r, IterCase{Fn: "range", A: s, B: s + 60}))
+		r.Check(checkIter(r, IterCase{Fn: "between", A: s - 1, B: s + 61}))
+		n += 2
+	}
+	for k := 3; k <= 62; k++ {
+		for _, p := range []int{1 << k, -(1 << k)} {
+			r.Check(checkIter(r, IterCase{Fn: "range", A: p - 3, B: p + 3}))
+			r.Check(checkIter(r, IterCase{Fn: "between", A: p - 4, B: p + 4}))
+			r.Check(checkIter(r, IterCase{Fn: "until", A: p + 3}))
+			n += 3
+		}
+	}
+	r.Subspace("range/between over every value in [-1100,1160] (windows of 60) and around +-2^k for k in 3..62 (+-3)", n, true)
 
 	n = 0
 	for _, x := range pairPool {
